@@ -38,7 +38,7 @@ PARTIAL = [
     "collocation matrices have non-zero Doolittle pivots: proved for degree 1 only (collocation_degree_one_identity: the matrix is the identity for strictly increasing "
     "parameters, curve and surface directions; interpolateCurve_degree_one_returns: interpolate_curve(.,1) returns the data points); for degree >= 2 total positivity / "
     "Schoenberg-Whitney is NOT proved - collocation_luSolve_returns_of_minors states the hypothesis explicitly (all leading principal minors of the collocation matrix non-zero, "
-    "equivalent to 'no zero pivot' by doolittle_pivots_iff_minors), only the positive diagonal is a theorem (C11), and the oracle checks that lu_solve returns on generated "
+    "equivalent to 'no zero pivot' by doolittle_pivots_iff_minors), only the positive diagonal is a theorem (C11, for the exact factor 1/p; with the code's rounded 1.0/3 the diagonal can vanish and lu_solve raises: open finding F-11b of C11), and the oracle checks that lu_solve returns on generated "
     "interpolation matrices; that interpolate_surface of degree 1 returns as a whole call is not stated (only: both matrices are the identity and lu_solve(identity, b) returns b)",
     "strict diagonal dominance: both readings are theorems (luSolve_sdd rows, luSolve_sdd_col columns); weak / irreducible dominance is not covered",
     "vector_magnitude / vector_normalize: the square root is an input of the model (normSq is modelled and proved equal to dot(v,v)); the oracle compares with math.sqrt",
